@@ -74,7 +74,7 @@ def can_parameterise(model, tr, state_patch, opts_ff):
 
 
 def observed_state(group, residue):
-    n = {a.name for a in residue.atoms}
+    n = {getattr(a, "_vf_name", a.name) for a in residue.atoms}      # canonical names (C01 records them before --ffout)
     if group == "ASP":
         return "ASH" if ("HD1" in n or "HD2" in n) else "default"
     if group == "GLU":
